@@ -151,6 +151,37 @@ pub fn run(ctx: &Ctx) {
                     let _ = rng::take_log();
                 }
             }
+            // key generation by rejection (paseto-v3): blocks that are not a valid scalar (zero, >= the group order) are
+            // skipped, the first valid block IS the key, a failure of the source inside the loop is returned
+            if b.name == "v3" {
+                let valid = {
+                    let mut v = g.bytes(48);
+                    v[0] = 0x01;
+                    v
+                };
+                for (what, bad) in [("all-ff", vec![vec![0xffu8; 48]]), ("zero", vec![vec![0u8; 48]]), ("three invalid blocks", vec![vec![0xffu8; 48], vec![0u8; 48], vec![0xffu8; 48]])] {
+                    rep.evaluations += 1;
+                    let mut data: Vec<u8> = bad.concat();
+                    data.extend_from_slice(&valid);
+                    rng::set_mode(Mode::Exact { data, pos: 0 });
+                    let r = (b.secret_random)();
+                    let (calls, _) = rng::take_log();
+                    let case = json!({"backend": b.name, "op": "secret-key", "what": format!("rejection: {what}")});
+                    match &r {
+                        Ok(k) if *k == valid && calls.len() == bad.len() + 1 && calls.iter().all(|c| *c == (48, true)) => rep.nontrivial(format!("v3|secret-key|rejection|{}", bad.len())),
+                        other => rep.violation("c16.v3.secret-key.rejection", format!("v3 SecretKey::random() with {what} served first: {:?} after {} draws; the model returns the first valid block after {} draws", other.as_ref().map(hex::encode), calls.len(), bad.len() + 1), case.clone()),
+                    }
+                    // the source dies inside the loop: the error, no key
+                    rep.evaluations += 1;
+                    rng::set_mode(Mode::Exact { data: bad.concat(), pos: 0 });
+                    let r = (b.secret_random)();
+                    let _ = rng::take_log();
+                    if !matches!(&r, Err(e) if e == "CryptoError") {
+                        rep.violation("c16.v3.secret-key.not-fail-closed", format!("v3 SecretKey::random() returned {:?} although the source failed after {} invalid block(s)", r.as_ref().map(hex::encode), bad.len()), case);
+                    }
+                }
+                rng::set_mode(Mode::Os);
+            }
             // histories of mixed operations with a failure at every global call index: shape vs the model
             let hist: Vec<usize> = (0..(if thorough { 40 } else { 12 })).map(|_| g.below(6) as usize).filter(|o| !(b.ver == "v1" && *o == 2)).collect();
             let sizes: Vec<Vec<usize>> = hist.iter().map(|&o| model_draws(&mut m, b, o)).collect();
